@@ -114,6 +114,32 @@ theorem cutAfterDb_sublist (es : List Eff) (k : Nat) :
         · simpa using (ih k).cons_cons e
       · simpa using (ih (k + 1)).cons_cons e
 
+theorem cutBeforeDb_sublist (es : List Eff) (j : Nat) : (cutBeforeDb es j).Sublist es := by
+  induction es generalizing j with
+  | nil => cases j <;> exact List.Sublist.refl _
+  | cons e es ih =>
+    cases j with
+    | zero => exact List.nil_sublist _
+    | succ j =>
+      simp only [cutBeforeDb]
+      split
+      · split
+        · exact List.nil_sublist _
+        · exact (ih j).cons_cons e
+      · exact (ih (j + 1)).cons_cons e
+
+theorem cutAt_sublist (es : List Eff) (k : Nat) : ((cutAt es k).1 ++ (cutAt es k).2.toList).Sublist es := by
+  unfold cutAt
+  split
+  · exact cutAfterDb_sublist es k
+  · simpa using cutBeforeDb_sublist es (k - killBase)
+
+theorem cutAt_nil (k : Nat) : cutAt [] k = ([], none) := by
+  unfold cutAt
+  split
+  · cases k <;> rfl
+  · cases (k - killBase) <;> rfl
+
 /-- the database after a (possibly cut) replay is the replay of a sublist of the effects -/
 theorem replay_db (fixed : Bool) (u : User) (held : Nat → List Flav) (wm : World × Spec) (es : List Eff)
     (last : Option Eff) :
@@ -148,9 +174,9 @@ theorem step_db (fixed : Bool) (w : World) (u : User) (c : Cmd) (crash : Option 
     obtain ⟨es', hs, he⟩ := replay_db fixed u (heldOf fl) (w1, m) (run w.nst c ⟨w.db, m, w1.dirs, [], w1.extras, w.tfiles⟩).2.tr none
     exact ⟨es', by simpa using hs, by rw [he, hdb]⟩
   | some k =>
-    obtain ⟨es', hs, he⟩ := replay_db fixed u (heldOf fl) (w1, m) (cutAfterDb (run w.nst c ⟨w.db, m, w1.dirs, [], w1.extras, w.tfiles⟩).2.tr k).1
-      (cutAfterDb (run w.nst c ⟨w.db, m, w1.dirs, [], w1.extras, w.tfiles⟩).2.tr k).2
-    exact ⟨es', hs.trans (cutAfterDb_sublist _ _), by rw [he, hdb]⟩
+    obtain ⟨es', hs, he⟩ := replay_db fixed u (heldOf fl) (w1, m) (cutAt (run w.nst c ⟨w.db, m, w1.dirs, [], w1.extras, w.tfiles⟩).2.tr k).1
+      (cutAt (run w.nst c ⟨w.db, m, w1.dirs, [], w1.extras, w.tfiles⟩).2.tr k).2
+    exact ⟨es', hs.trans (cutAt_sublist _ _), by rw [he, hdb]⟩
 
 theorem step_rmCache_db (fixed : Bool) (w : World) (u : User) (s : Nat) (f : Flav) :
     (stepG fixed w (.rmCache u s f)).w.db = w.db := rfl
@@ -203,7 +229,7 @@ theorem step_of_empty_trace (fixed : Bool) (w : World) (u : User) (c : Cmd) (cra
   cases crash with
   | none => exact ⟨hdb, hdirs, ht, hex⟩
   | some k =>
-    have : cutAfterDb [] k = ([], none) := by cases k <;> rfl
+    have : cutAt [] k = ([], none) := cutAt_nil k
     dsimp only
     rw [this]
     exact ⟨hdb, hdirs, ht, hex⟩
